@@ -364,6 +364,15 @@ def gen_scenario(rng, focus, client=None, variant=0):
         for _ in range(rng.choice([0, 0, 2])):
             t += 10
             items.append((t + 12, "J" + rng.choice(JUNK)))
+        if variant % 6 == 5 and final != "none":
+            # the genuine response is LONGER than the payload size the query advertised (512 without EDNS) but fits the
+            # caller's buffer: the caller gets all of it (what is handed over is exactly the accepted datagram)
+            edns = rng.choice([None, (0, 512), (0, 1232)])
+            buf = 4096
+            adv = 512 if edns is None else edns[1]
+            blen = len(response_bytes(name, qtype, 1))
+            items = [it for it in items if it[1] != final] + [(t + 30, "big%d" % (adv + rng.choice([1, 1, 2, 100, 700]) - blen))]
+            items.sort(key=lambda x: x[0])
         qs = [mk(udp=[items])]
     elif focus == "strategy" and rng.random() < 0.15:
         strategy = rng.choice(["udp", "notcp", "notcp", "tcp"]) + "+noudp"
@@ -486,6 +495,16 @@ def gen_scenario(rng, focus, client=None, variant=0):
               mk(kind=kinds[2], name=nm, qtype=ty, udp=[clip()] if rng.random() < 0.4 else [clip() + [(40, "resp")]])]
         qt, life = 250, 600
         buf = rng.choice([512, 1232])
+    elif focus == "history" and variant % 5 == 2:
+        # typed queries whose record-set extraction REJECTS the accepted response (announces more records than it
+        # carries: EndOfBuffer; or a truncated answer under the UDP-only strategy: MessageTruncated), each followed by
+        # typed queries that are answered properly: the failed extraction must leave the client as good as new
+        ty = rng.choice([1, 28, 16])
+        bad = lambda: mk(kind="rr%d" % ty, name=small_label(rng), qtype=ty, udp=[[(12, "resplie")]])
+        good = lambda: mk(kind="rr%d" % ty, name=rand_name(rng), qtype=ty, udp=[[(12, "resp")]])
+        qs = [good(), bad(), good(), bad(), good(), mk(kind="raw", name=rand_name(rng), qtype=ty, udp=[[(12, "resp")]])][rng.choice([0, 1]):]
+        qt, life = 250, 600
+        buf = 1232
     elif focus == "history" and rng.random() < 0.25:
         # a longer response first, then a shorter one that announces more records than it carries:
         # stale bytes of the first must not be parsed as part of the second
